@@ -398,6 +398,20 @@ def gen_family(rng, force=(), forbid=(), n_masters=None, max_glyphs=14, p_sparse
             kerning.append([l, r, v])
         if marks and rng.random() < 0.4:
             kerning.append([kern_names[0], marks[0][0], -15])
+        if "multiscript" in on:
+            # kerning inside each of several scripts (several per-script kern lookups)
+            latin = [n for n in kern_names if n.split(".")[0] in ("A", "V", "T", "a", "o", "n")]
+            other = [n for n in kern_names if n.split(".")[0] in ("alpha", "Sigma")]
+            cyr = [n for n in kern_names if n.split(".")[0] in ("uni0430", "uni0414")]
+            extra_pairs = []
+            for grp in (latin, other, cyr):
+                if grp:
+                    extra_pairs.append([rng.choice(grp), rng.choice(grp), rng.choice([-30, -12, 18])])
+            rng.shuffle(extra_pairs)
+            for l, r, v in extra_pairs:
+                if (l, r) not in seen:
+                    seen.add((l, r))
+                    kerning.append([l, r, v])
 
     # ------------------------------------------------------------- features
     fea = []
